@@ -31,6 +31,8 @@ def gen_lit(rng, o, kinds=None):
         return ("txt", rng.choice(TEXTS))
     if k == "flt":
         return ("flt", nonint_q(rng))
+    if rng.random() < 0.5:
+        return ("byt", rng.choice(TEXTS).encode("utf-8"))          # also the bytes of a text the generators use
     return ("byt", bytes(rng.randrange(256) for _ in range(rng.choice([0, 1, 2, 4]))))
 
 
@@ -573,13 +575,19 @@ def mutate(rng, v, cbor, depth=0):
     if k == "int":
         return rng.choice([("int", v[1] + 1), ("int", v[1] - 1), ("int", -v[1]), ("txt", str(v[1])), ("flt", 4 * v[1] + 2) if abs(v[1]) < (1 << 40) else ("null",)])
     if k == "txt":
-        return rng.choice([("txt", v[1] + "x"), ("txt", v[1][:-1]), ("int", len(v[1])), ("txt", v[1].upper() if v[1].upper() != v[1] else v[1] + "é")])
+        return rng.choice([("txt", v[1] + "x"), ("txt", v[1][:-1]), ("int", len(v[1])), ("txt", v[1].upper() if v[1].upper() != v[1] else v[1] + "é")]
+                          + ([("byt", v[1].encode("utf-8"))] * 2 if cbor else []))      # same bytes, other major type (89eeb06)
     if k == "flt":
         return rng.choice([("flt", v[1] + 1), ("flt", -v[1]), ("int", v[1] // 4)])
     if k == "bool":
         return rng.choice([("bool", not v[1]), ("int", 1 if v[1] else 0), ("null",)])
     if k == "byt":
-        return rng.choice([("byt", v[1] + b"\x00"), ("txt", "b")])
+        same = []
+        try:
+            same = [("txt", v[1].decode("utf-8"))] * 2         # same bytes, other major type (89eeb06)
+        except UnicodeDecodeError:
+            pass
+        return rng.choice([("byt", v[1] + b"\x00"), ("txt", "b")] + same)
     if k == "tag":
         return rng.choice([("tag", v[1] + 1, v[2]), v[2], ("tag", v[1], mutate(rng, v[2], cbor, depth + 1))])
     return rand_scalar(rng, cbor)
